@@ -188,6 +188,7 @@ func load(repo string, lc loadCfg) (*Ctx, error) {
 		return nil, err
 	}
 	c := &Ctx{Repo: repo, Config: lc.Name, Fset: fset, Pkgs: map[string]*packages.Package{}}
+	barrierCtx = c
 	var errs []string
 	for _, p := range pkgs {
 		for _, e := range p.Errors {
